@@ -1100,7 +1100,11 @@ func Run(w *World, opt *Options) *History {
 			store.BumpClaimVersions() // remember the initial content
 		}
 		EnvStep(store, &w.Cycles[i], i, rec)
-		ApplyMutations(store, &w.Cycles[i])
+		var after *World
+		if len(w.Cycles[i].Mutations) > 0 {
+			after = w.At(i + 1)
+		}
+		ApplyMutations(store, &w.Cycles[i], after)
 		store.BumpClaimVersions()
 	}
 	return h
